@@ -336,10 +336,11 @@ func (p *printer) braces(toks []string) {
 	if len(toks) > 0 {
 		first, last = toks[0], toks[len(toks)-1]
 	}
-	// "{{-" followed by "-" would open a comment; "{{" "{" is fine for the lexer
-	// but kept apart for readability of shrunk cases
+	// "{{-" followed by "-" would open a comment ("{{-x" is the unary minus glued to
+	// the braces and fine); "{{" "{" is fine for the lexer but kept apart for
+	// readability of shrunk cases
 	s := p.pad("{{", first)
-	if s == "" && (strings.HasPrefix(first, "-") || strings.HasPrefix(first, "{")) {
+	if s == "" && (strings.HasPrefix(first, "--") || first == "-" && len(toks) > 1 && strings.HasPrefix(toks[1], "-") || strings.HasPrefix(first, "{")) {
 		s = " "
 	}
 	p.b.WriteString(s)
